@@ -9,6 +9,7 @@ from .. import leak
 from ..canon import canon
 
 ID = "C17"
+LEAN = True  # cases are distinct by construction; see engine.Acc
 RULE = (
     "entries with 0..5 (quick) / 0..6 (thorough; 0..8 for alphabetical and normalise) fields whose keys range over {a, A, b, B, c} in every "
     "pattern, values unique per position; x alphabetical sorting, key normalisation and custom sorting with every permutation of every subset of "
